@@ -91,6 +91,23 @@ def has_pow(e):
     return any(has_pow(c) for c in e)
 
 
+def pow_base_pow(e):
+    """a power whose base is itself a power"""
+    if not isinstance(e, list):
+        return False
+    if len(e) == 3 and e[0] == "pow" and isinstance(e[1], list) and e[1] and e[1][0] == "pow":
+        return True
+    return any(pow_base_pow(c) for c in e)
+
+
+def pow_neg_const_base(e):
+    if not isinstance(e, list):
+        return False
+    if len(e) == 3 and e[0] == "pow" and e[1][0] == "int" and e[1][1] < 0:
+        return True
+    return any(pow_neg_const_base(c) for c in e)
+
+
 def has_ne(e):
     if not isinstance(e, list):
         return False
@@ -252,6 +269,10 @@ def features(case):
     for e, lv in prog_exprs(case):
         if has_pow(e):
             f.add("pow")
+        if pow_base_pow(e):
+            f.add("pow_base_pow")
+        if pow_neg_const_base(e):
+            f.add("pow_neg_const_base")
         if has_ne(e):
             f.add("ne")
         if has_if(e):
@@ -609,12 +630,51 @@ def same_value(a, b):
     return a == b and type(a) is type(b)
 
 
+def reassoc(e):
+    """the expression with every chain of powers associated to the right, the way Fortran reads `a**b**c`"""
+    def append(t, x):
+        return ["pow", t[1], append(t[2], x)] if t[0] == "pow" else ["pow", t, x]
+    if not isinstance(e, list):
+        return e
+    if len(e) == 3 and e[0] == "pow":
+        b, x = reassoc(e[1]), reassoc(e[2])
+        return append(b, x) if b[0] == "pow" else ["pow", b, x]
+    return [reassoc(c) for c in e]
+
+
+def is_power_finding(case, o):
+    """narrow matcher of the finding power_base_not_parenthesised: some base is itself a power, and either the states
+    differ and stop differing when the interpreter is given the powers associated the way Fortran reads the printed text,
+    or that reading raises a negative constant to a power (which gfortran rejects) where the program does not"""
+    if not any(pow_base_pow(ph["prog"]) for ph in case["phases"]):
+        return False
+    import copy
+    d = copy.deepcopy(strip(case))
+    for ph in d["phases"]:
+        ph["prog"] = reassoc(ph["prog"])
+    if o["kind"] == "compile_error":
+        return o["stderr"].count("\nError:") == 1 and "Raising a negative REAL" in o["stderr"] \
+            and any(pow_neg_const_base(ph["prog"]) for ph in d["phases"]) \
+            and not any(pow_neg_const_base(ph["prog"]) for ph in case["phases"])
+    if o["kind"] != "state_differs":
+        return False
+    try:
+        return oracle(d, run_case(d)) is None
+    except Exception:  # noqa: BLE001
+        return False
+
+
 def classify(case, o):
     """narrow classes used for known findings"""
     feats = features(case)
     if o["kind"] == "generation_error" and o["exception"] == "ValueError" and "NoneType" in o["message"] \
             and "pow" in feats:
         return "power_kind_none"
+    if is_power_finding(case, o):
+        return "power_base_not_parenthesised"
+    if o["kind"] == "compile_error" and "pow_neg_const_base" in feats and o["stderr"].count("\nError:") == 1 \
+            and "Raising a negative REAL" in o["stderr"]:
+        return "power_negative_constant_base"
     if o["kind"] == "termination_differs" and "array_arith_indexed" in feats and not o.get("fortran_trapped") \
             and o.get("fortran_rc") not in (0, None):
         return "array_expression_lower_bound"
@@ -1132,6 +1192,36 @@ def linalg_case(rng):
             "nsteps": rng.choice([2, 3])}
 
 
+def power_case(rng):
+    """powers: a power as base and as exponent, negated / sum / subscript / loop-counter bases, exponents 0, positive,
+    negative (results then are non-integral: float sinks <p>q, <p>r), inside sums, products and guards"""
+    V = lambda x: ["var", x]
+    I = lambda z: ["int", z]
+    S = lambda *a: ["nary", "sum", list(a)]
+    P = lambda *a: ["nary", "prod", list(a)]
+    PW = lambda b, e: ["pow", b, e]
+    A = lambda x, rhs, loops=(), sub=None: ["stmt", ["assign", x, sub, rhs, [list(l) for l in loops]]]
+    x = V("<p>x")
+    sb = ["nary", "min", [["nary", "max", [x, I(-3)]], I(3)]]          # small base, may be negative or zero
+    nz = S(P(sb, sb), I(1))                                              # >= 1
+    ints = [PW(PW(sb, I(2)), I(3)), PW(PW(sb, I(3)), I(2)), PW(sb, PW(I(2), I(2))), PW(PW(sb, I(2)), PW(I(2), I(1))),
+            PW(S(sb, I(1)), I(2)), PW(P(I(-1), sb), I(3)), PW(sb, I(0)), PW(PW(PW(sb, I(1)), I(2)), I(2)),
+            S(P(I(2), PW(sb, I(2))), PW(sb, I(3))), P(PW(sb, I(2)), PW(S(sb, I(2)), I(2))),
+            PW(nz, I(2)), S(PW(PW(nz, I(2)), I(2)), I(-1))]
+    flts = [PW(nz, I(-1)), PW(nz, I(-2)), PW(PW(nz, I(-1)), I(2)), PW(PW(nz, I(2)), I(-1)),
+            S(PW(S(V("<p>q"), I(1)), I(2)), PW(nz, I(-1)))]
+    prog = [A("<p>x", S(x, I(1)))]
+    for tgt in ("<p>z", "<p>w"):
+        prog.append(A(tgt, rng.choice(ints)))
+    prog.append(A("<p>q", rng.choice(flts)))
+    prog.append(A("<p>r", rng.choice(flts)))
+    prog.append(A("<p>s", S(V("<p>s"), PW(V("i"), I(2)), PW(PW(V("i"), I(2)), I(2))), [("i", I(0), I(3))]))
+    prog += [["if", ["bin", rng.choice(["gt", "le"]), rng.choice(ints), I(rng.choice([3, 8, 60]))]],
+             A("<p>g", S(V("<p>g"), I(1))), ["endif"], ["else"], A("<p>g", S(V("<p>g"), I(10))), ["endelse"]]
+    init = {"<t>": 0, "<dt>": 1, "<p>x": rng.randint(-4, -1), "<p>z": 0, "<p>w": 0, "<p>q": 0, "<p>r": 0, "<p>s": 0, "<p>g": 0}
+    return {"phases": [{"name": "pa", "next": "pa", "prog": prog}], "initial": "pa", "init": init, "nsteps": 4}
+
+
 def alias_case(rng):
     """an array copied by name, then an element written through one name and read through the other"""
     V = lambda x: ["var", x]
@@ -1182,6 +1272,9 @@ def gen_cases(tier, seed):
     rng2 = random.Random(seed * 7919 + 11)
     for n in range(8 if tier == "quick" else 120):
         out.append(linalg_case(rng2))
+    rng4 = random.Random(seed * 53 + 7)
+    for n in range(6 if tier == "quick" else 80):
+        out.append(power_case(rng4))
     rng3 = random.Random(seed * 31 + 5)
     for n in range(4 if tier == "quick" else 40):
         out.append(alias_case(rng3))
@@ -1490,6 +1583,119 @@ def bt_cases(tier, seed):
     return cases
 
 
+# ---- powers: printer vs model.  trees: ["patom", n] | ["ppow", base, exponent]
+HEADER_PW = ("From Coq Require Import List Arith Bool.\nImport ListNotations.\n"
+             "From Dagrt Require Import GenC03 FortranPrinter.\n"
+             "Definition chkw (c : pexp * list ptok) : bool :=\n"
+             "  ptoks_eqb (pprint c03_prec_pow_base c03_prec_pow_exp c03_prec_pow_own 0 (fst c)) (snd c)\n"
+             "  && Bool.eqb c03_power_paren (c03_prec_pow_own <? c03_prec_pow_base)\n"
+             "  && (negb c03_power_paren || match pread (S (psize (fst c))) (snd c) with\n"
+             "                               | Some (e, []) => pexp_eqb e (fst c) | _ => false end).\n")
+PT_VALUES = [2, 3, 2, 1, 2, 3]
+
+
+def pt_to_pym(t):
+    import pymbolic.primitives as p
+    return p.Variable("b%d" % t[1]) if t[0] == "patom" else p.Power(pt_to_pym(t[1]), pt_to_pym(t[2]))
+
+
+def pt_to_coq(t):
+    return "(PAtom %d)" % t[1] if t[0] == "patom" else "(PPow %s %s)" % (pt_to_coq(t[1]), pt_to_coq(t[2]))
+
+
+def pt_eval(t):
+    return PT_VALUES[t[1] % len(PT_VALUES)] if t[0] == "patom" else pt_eval(t[1]) ** pt_eval(t[2])
+
+
+def pt_size(t):
+    return 1 if t[0] == "patom" else 1 + pt_size(t[1]) + pt_size(t[2])
+
+
+def pt_base_pow(t):
+    return t[0] == "ppow" and (t[1][0] == "ppow" or pt_base_pow(t[1]) or pt_base_pow(t[2]))
+
+
+def pt_print(t):
+    from dagrt.codegen.expressions import FortranExpressionMapper
+
+    class Names(dict):
+        def __getitem__(self, k):
+            return k
+    text = FortranExpressionMapper(Names())(pt_to_pym(t))
+    return text, text.replace("(", " ( ").replace(")", " ) ").replace("**", " ** ").split()
+
+
+def pt_oracle(t):
+    """Python's `**` associates to the right as Fortran's does: evaluate the printed text with Python's parser for
+    small values of the atoms (exact integers) and compare with the value of the tree"""
+    try:
+        text, toks = pt_print(t)
+    except Exception as ex:  # noqa: BLE001
+        return {"kind": "printer_raises", "exception": type(ex).__name__}, None
+    names = {"b%d" % n: PT_VALUES[n % len(PT_VALUES)] for n in range(16)}
+    try:
+        got = eval(" ".join(toks), {"__builtins__": {}}, names)
+    except SyntaxError:
+        return {"kind": "printed_text_not_an_expression", "text": text}, toks
+    if got != pt_eval(t):
+        return {"kind": "printed_text_means_something_else", "text": text, "atoms": {k: names[k] for k in sorted(names)[:6]},
+                "tree_value": pt_eval(t), "value_of_text_with_fortran_associativity": got}, toks
+    return None, toks
+
+
+def pt_cases(tier):
+    """all trees with at most 3 (thorough: 4) powers, atoms numbered left to right (values 2, 3, 2, 1, 2: exact)"""
+    memo = {}
+
+    def trees(n):
+        if n not in memo:
+            memo[n] = [["patom", 0]] if n == 0 else [["ppow", l, r_] for a in range(n) for l in trees(a)
+                                                     for r_ in trees(n - 1 - a)]
+        return memo[n]
+
+    def relabel(t, ctr):
+        if t[0] == "patom":
+            ctr[0] += 1
+            return ["patom", ctr[0] - 1]
+        return ["ppow", relabel(t[1], ctr), relabel(t[2], ctr)]
+    return [relabel(t, [0]) for n in range(0, (3 if tier == "quick" else 4) + 1) for t in trees(n)]
+
+
+def pt_to_coq_toks(toks):
+    return "[%s]" % "; ".join({"(": "PL", ")": "PR", "**": "PStar"}.get(w) or "PA %d" % int(w[1:]) for w in toks)
+
+
+def check_power_printer(rep, tier):
+    cases = pt_cases(tier)
+    known = {k.get("class"): k for k in common.known_findings(PID)}
+    worst, terms, n_known = None, [], 0
+    for t in cases:
+        o, toks = pt_oracle(t)
+        if o is not None:
+            if o["kind"] == "printed_text_means_something_else" and pt_base_pow(t) \
+                    and "power_base_not_parenthesised" in known:
+                n_known += 1
+                rep.known_finding(known["power_base_not_parenthesised"].get("what_fails"))
+            elif worst is None or pt_size(t) < pt_size(worst[0]):
+                worst = (t, o)
+        if toks is not None:
+            terms.append("(%s, %s)" % (pt_to_coq(t), pt_to_coq_toks(toks)))
+    if worst is not None:
+        rep.violation({"what": "FortranExpressionMapper prints a tree of powers as text that Fortran reads as a different "
+                               "expression (or not as an expression)",
+                       "class": "power_printing", "ptree": worst[0], "oracle": worst[1],
+                       "replay": "./check C03 --replay <this file>"})
+    mism, n_eval, errors = [], 0, []
+    if os.path.exists(os.path.join(common.COQ, "model", "FortranPrinter.vo")) and \
+            os.path.exists(os.path.join(common.COQ, "gen", "GenC03.vo")):
+        mism, n_eval, errors = common.eval_cases(PID + "W", HEADER_PW, terms, "chkw", shard=400)
+    else:
+        errors = ["printer model not built"]
+    return {"trees": len(cases), "oracle_failures": 0 if worst is None else 1, "known_finding_trees": n_known,
+            "compared_with_model": n_eval, "model_disagreements": len(mism), "errors": errors[:2],
+            "first_disagreeing_tree": cases[mism[0]] if mism and mism[0] < len(cases) else None}
+
+
 def check_printer(rep, tier, seed):
     """returns coverage dict; reports a violation with the smallest failing tree"""
     cases = bt_cases(tier, seed)
@@ -1585,12 +1791,14 @@ def main(tier):
     else:
         errors = ["model not built"]
     pr = check_printer(rep, tier, seed)
-    tie_broken = bool(mism or errors or pr["model_disagreements"] or pr["errors"])
+    pw = check_power_printer(rep, tier)
+    tie_broken = bool(mism or errors or pr["model_disagreements"] or pr["errors"]
+                      or pw["model_disagreements"] or pw["errors"])
     if (not ps["ok"] or tie_broken) and not rep.violations:
         detail = {"what": "proof obligation or model/implementation correspondence no longer checks; "
                           "no failing input found by the implementation-level oracle",
                   "proof_stage": ps, "coq_errors": errors[:3], "n_disagreements": len(mism),
-                  "logical_printing": pr}
+                  "logical_printing": pr, "power_printing": pw}
         if mism:
             case, res = cases[mism[0]], results[mism[0]]
             detail["first_disagreeing_case"] = {"case": strip(case), "fortran": res.get("fortran"),
@@ -1618,7 +1826,7 @@ def main(tier):
         calls_compared_fortran_vs_interpreter=compared_steps, skipped_interpreter_raised=skipped,
         traces_validated_against_impl=n_eval, model_impl_disagreements=len(mism),
         cases_outside_model=len(cases) - len(terms),
-        logical_printing=pr,
+        logical_printing=pr, power_printing=pw,
         input_distribution={"corpus": n_corpus, "random": len(cases) - n_corpus, "features": feat_hist,
                             "phases": {str(k): sum(1 for c in cases if len(c["phases"]) == k) for k in (1, 2, 3)},
                             "calls": {str(k): sum(1 for c in cases if c["nsteps"] == k) for k in (1, 2, 3, 4)}},
@@ -1640,6 +1848,10 @@ def main(tier):
 
 def replay(path):
     r = json.load(open(path))
+    if "ptree" in r:
+        o, toks = pt_oracle(r["ptree"])
+        print(json.dumps({"tree": r["ptree"], "printed": " ".join(toks or []), "oracle": o}, indent=1))
+        return 1 if o is not None else 0
     if "btree" in r:
         o, toks = bt_oracle(r["btree"])
         print(json.dumps({"tree": r["btree"], "printed": " ".join(toks or []), "oracle": o}, indent=1))
